@@ -228,13 +228,13 @@ func Attestation(quote []byte) (*tpmpb.Attestation, error) {
 
 	// Attempt to decode as a raw SEV-SNP attestation.
 	// Get the raw quote and try to extract from the certificates.
-	if at, err := abi.ReportCertsToProto(quote); err == nil {
+	if at, err := reportCertsToProto(quote); err == nil {
 		tpmat.TeeAttestation = &tpmpb.Attestation_SevSnpAttestation{SevSnpAttestation: at}
 		return tpmat, nil
 	}
 	// Attempt to decode as just the SEV-SNP certificate table.
 	certs := new(abi.CertTable)
-	if err := certs.Unmarshal(quote); err == nil {
+	if err := unmarshalCertTable(certs, quote); err == nil {
 		sev.Report = &spb.Report{Measurement: []byte{0}}
 		sev.CertificateChain = certs.Proto()
 		tpmat.TeeAttestation = &tpmpb.Attestation_SevSnpAttestation{SevSnpAttestation: sev}
@@ -252,6 +252,25 @@ func Attestation(quote []byte) (*tpmpb.Attestation, error) {
 		}
 	}
 	return nil, ErrUnknownFormat
+}
+
+// reportCertsToProto decodes a raw SEV-SNP report followed by a certificate table whose entries lie
+// within the table.
+func reportCertsToProto(quote []byte) (*spb.Attestation, error) {
+	if len(quote) >= abi.ReportSize {
+		if err := extractsev.CheckCertTable(quote[abi.ReportSize:]); err != nil {
+			return nil, err
+		}
+	}
+	return abi.ReportCertsToProto(quote)
+}
+
+// unmarshalCertTable decodes a certificate table whose entries lie within the table.
+func unmarshalCertTable(certs *abi.CertTable, table []byte) error {
+	if err := extractsev.CheckCertTable(table); err != nil {
+		return err
+	}
+	return certs.Unmarshal(table)
 }
 
 func (opts *Options) fromQuote(quote []byte) (endorsement []byte, objectName string, err error) {
